@@ -368,8 +368,15 @@ func artefactConformance(run *core.Run) {
 				for _, l := range []struct{ lang, src string }{{"go", goSrc}, {"ts", tsSrc}, {"java", javaSrc}} {
 					ds := g4.ListenerDispatch(l.src, l.lang)
 					run.Count("listener_dispatch_methods_"+l.lang, int64(2*len(ds)))
-					if len(ds) == 0 {
-						run.Inconclusive("no EnterRule/ExitRule methods found in the generated %s parser (pattern outdated?)", l.lang)
+					anyCall := false
+					for _, d := range ds {
+						if len(d.Enter)+len(d.Exit) > 0 {
+							anyCall = true
+						}
+					}
+					if len(ds) == 0 || !anyCall {
+						// a generator version that writes these methods differently: nothing can be said, rather than everything flagged
+						run.Inconclusive("no EnterRule/ExitRule methods with recognisable callback calls found in the generated %s parser (pattern outdated?)", l.lang)
 						continue
 					}
 					var ctxs []string
